@@ -137,6 +137,9 @@ def write_graph(molecule, smiles_format=False, default_element='*'):
         if current in atom_to_ring_idx:
             # We're going to need to write a ring number
             ring_idxs = atom_to_ring_idx[current]
+            # markers above 9 are written as %nn after the single digit ones,
+            # because every digit that follows a % is read as part of that marker
+            late_markers = ''
             for ring_idx in ring_idxs:
                 ring_bond = ring_idx_to_bond[ring_idx]
                 if ring_idx not in ring_idx_to_marker:
@@ -147,11 +150,16 @@ def write_graph(molecule, smiles_format=False, default_element='*'):
                     marker = ring_idx_to_marker.pop(ring_idx)
                     new_marker = False
 
+                ring_symbol = ''
                 if _write_edge_symbol(molecule, *ring_bond) and new_marker:
                     order = molecule.edges[ring_bond].get('order', 1)
-                    smiles += order_to_symbol[order]
+                    ring_symbol = order_to_symbol[order]
 
-                smiles += str(marker) if marker < 10 else '%{}'.format(marker)
+                if marker < 10:
+                    smiles += ring_symbol + str(marker)
+                else:
+                    late_markers += ring_symbol + '%{}'.format(marker)
+            smiles += late_markers
 
         if current in dfs_successors:
             # Proceed to the next node in this branch
